@@ -6,6 +6,7 @@ package main
 import (
 	"fmt"
 	"go/token"
+	"os"
 	"sort"
 	"strings"
 
@@ -110,6 +111,8 @@ type Run struct {
 	clock       int
 	mapOrderOff bool
 	ordS, ordU  *ordGraph
+	pure        pureOrder
+	qOrder      int // feasibility questions decided by the pure-order procedure
 
 	outcome Outcome
 	finding *Finding
@@ -199,10 +202,33 @@ func (r *Run) assume(c *Term) {
 	}
 	r.pc = append(r.pc, c)
 	r.note(c, true)
+	r.pure.add(c, true)
 	ref := r.w.pr.Ref(c)
 	r.w.sol.Raw(r.w.pr.Flush())
 	r.w.sol.Assert(ref)
 }
+
+// feasible asks whether pi && c is satisfiable: by the pure-order procedure while it applies,
+// by the solver otherwise.
+func (r *Run) feasible(c *Term) SatResult {
+	if sat, ok := r.pure.sat(c, true); ok {
+		res := Unsat
+		if sat {
+			res = Sat
+		}
+		if ordCheck {
+			if chk := r.checkWith(c); chk != res {
+				r.abort(OEngineError, fmt.Sprintf("pure-order procedure says %v, solver says %v for %s", res, chk, c))
+			}
+		}
+		r.qOrder++
+		return res
+	}
+	r.qFeas++
+	return r.checkWith(c)
+}
+
+var ordCheck = os.Getenv("SYMGO_ORDCHECK") != ""
 
 // checkWith asks whether pi && c is satisfiable.
 func (r *Run) checkWith(c *Term) SatResult {
@@ -232,8 +258,7 @@ func (r *Run) branch(c *Term) bool {
 			side = r.tt.Not(c)
 		}
 		if d.Unverified {
-			r.qFeas++
-			if r.checkWith(side) == Unsat {
+			if r.feasible(side) == Unsat {
 				r.abort(OInfeasible, "")
 			}
 			d.Unverified = false
@@ -242,11 +267,9 @@ func (r *Run) branch(c *Term) bool {
 		r.assume(side)
 		return d.V != 0
 	}
-	r.qFeas++
-	if r.checkWith(c) == Sat {
+	if r.feasible(c) == Sat {
 		r.log = append(r.log, Dec{K: DBranch, V: 1})
-		r.qFeas++
-		if r.checkWith(r.tt.Not(c)) == Sat {
+		if r.feasible(r.tt.Not(c)) == Sat {
 			alt := append(append([]Dec(nil), r.log[:i]...), Dec{K: DBranch, V: 0})
 			r.spawn = append(r.spawn, alt)
 			r.assume(c)
@@ -375,6 +398,23 @@ func (r *Run) vassert(c *Term, label string) {
 		r.vcInherited++
 		r.note(c, true)
 		return
+	}
+	if c2 := r.simp(c, map[int]*Term{}); c2 != c {
+		if c2.IsTrue() {
+			if ordCheck && r.checkWith(r.tt.Not(c)) != Unsat {
+				r.abort(OEngineError, "rewriting under the path condition proved a VC the solver refutes: "+label)
+			}
+			r.vcRewrite++
+			r.note(c, true)
+			return
+		}
+		if ordCheck {
+			// the rewritten VC must be equivalent to the original under the path condition
+			if r.checkWith(r.tt.Not(r.tt.Eq(c, c2))) != Unsat {
+				r.abort(OEngineError, "rewriting under the path condition changed the meaning of a VC: "+label)
+			}
+		}
+		c = c2
 	}
 	r.vcSolver++
 	r.qVC++
@@ -541,5 +581,75 @@ func (r *Run) evalObserved(f *Finding) []string {
 		}
 		out = append(out, fmt.Sprintf("OBS %s %d", o.label, sext(v, t.sort.W)))
 	}
+	return out
+}
+
+// simp rewrites a term under the facts already on the path: every Boolean sub-term whose
+// truth value is known (an atom of the path condition, or a comparison the order closure
+// decides) is replaced by that value and the term is rebuilt with the simplifying
+// constructors. The result is equivalent to t under the path condition.
+func (r *Run) simp(t *Term, memo map[int]*Term) *Term {
+	if t.IsConst() || t.op == OpSym {
+		return t
+	}
+	if m, ok := memo[t.id]; ok {
+		return m
+	}
+	tt := r.tt
+	out := t
+	if t.sort.K == SBool {
+		if v, ok := r.known(t); ok {
+			out = tt.Bool(v)
+			memo[t.id] = out
+			return out
+		}
+	}
+	switch t.op {
+	case OpBNot:
+		out = tt.Not(r.simp(t.args[0], memo))
+	case OpBAnd:
+		a := r.simp(t.args[0], memo)
+		if a.IsFalse() {
+			out = a
+		} else {
+			out = tt.And(a, r.simp(t.args[1], memo))
+		}
+	case OpBOr:
+		a := r.simp(t.args[0], memo)
+		if a.IsTrue() {
+			out = a
+		} else {
+			out = tt.Or(a, r.simp(t.args[1], memo))
+		}
+	case OpIte:
+		c := r.simp(t.args[0], memo)
+		switch {
+		case c.IsTrue():
+			out = r.simp(t.args[1], memo)
+		case c.IsFalse():
+			out = r.simp(t.args[2], memo)
+		default:
+			out = tt.Ite(c, r.simp(t.args[1], memo), r.simp(t.args[2], memo))
+		}
+	case OpEq:
+		if t.args[0].sort.K == SFP {
+			break
+		}
+		out = tt.Eq(r.simp(t.args[0], memo), r.simp(t.args[1], memo))
+	case OpUlt, OpUle, OpSlt, OpSle:
+		out = tt.CmpBV(t.op, r.simp(t.args[0], memo), r.simp(t.args[1], memo))
+	case OpAdd, OpSub, OpMul, OpAnd, OpOr, OpXor:
+		out = tt.BinBV(t.op, r.simp(t.args[0], memo), r.simp(t.args[1], memo))
+	case OpZExt:
+		out = tt.ZExt(r.simp(t.args[0], memo), t.sort.W)
+	case OpSExt:
+		out = tt.SExt(r.simp(t.args[0], memo), t.sort.W)
+	}
+	if out != t && out.sort.K == SBool && !out.IsConst() {
+		if v, ok := r.known(out); ok {
+			out = tt.Bool(v)
+		}
+	}
+	memo[t.id] = out
 	return out
 }
